@@ -10,7 +10,7 @@ mkdir -p $S && rsync -a --exclude .git --exclude '_mut' /repo/ $S/repo/
 cd $S/repo
 if ! patch -p1 -s --no-backup-if-mismatch < "$MD/patch.diff"; then echo "PATCH-FAILED"; rm -rf $S; exit 3; fi
 if [ "${SKIP_SUITE:-0}" != 1 ]; then
-  /venv/bin/python -m pytest -q -p no:cacheprovider --deselect "tests/channel_estimation_package_test.py::ChannelEstimationFunctionsTest::test_compare_empirical_mmse_MSE_with_theoretical" 2>&1 | tail -1 | sed 's/^/suite(mutant): /'
+  timeout 1200 unshare -n bash -c 'ip link set lo up; /venv/bin/python -m pytest -q -p no:cacheprovider --deselect "tests/channel_estimation_package_test.py::ChannelEstimationFunctionsTest::test_compare_empirical_mmse_MSE_with_theoretical"' 2>&1 | tail -1 | sed 's/^/suite(mutant): /'
 fi
 if [ -f "$MD/demo.py" ]; then
   (cd /repo && timeout 600 /venv/bin/python "$MD/demo.py" >/dev/null 2>&1; echo "demo(pristine /repo) exit=$?")
